@@ -58,6 +58,13 @@ that chain to the REAL built-in anchors (so that code which stops using the subs
 of results (an earlier result re-read after later calls), decoder state across calls (CBOR tags 28 / 29), the same credential object verified
 again after one of its fields changed; and arguments that coincide with one another (user id = user name).
 
+**Detection must not depend on the random stream.** Re-running all seeded changes under other seeds (`VERIF_SEED=1`, `7`) showed that a few catches
+had been luck: a catalogue entry that picks one of several variants at random (which origin alias, which id spelling, which vandalism) only exposes
+a change when it happens to pick the right one. Catalogue entries are therefore applied with their own CYCLING generator (`authcat.Cycler`:
+successive applications walk through the variants in order) and each entry is repeated until all its variants have been used; selections such as
+"a fixed half of the entries in the quick tier" are made by label, not by the stream; vandalism of returned objects applies every kind of edit every
+time. The full set of seeded changes is re-run under three seeds after every strengthening.
+
 Initially missed, and why:
 
 """ + "\n".join(missed) + """
